@@ -295,6 +295,16 @@ class Hazard:
         if isinstance(n, (ast.Tuple, ast.List)) and n.elts:
             cls_ = [self.expr(e, env, selfname) for e in n.elts]
             return "NANH" if "NANH" in cls_ else ("OVF" if "OVF" in cls_ else cls_[0])
+        if isinstance(n, ast.Compare):
+            # a boolean mask: comparisons never raise and never produce a non-finite number (a NaN operand compares False); the operands
+            # are still classified so that a hazard inside them is traced
+            for e in [n.left] + list(n.comparators):
+                self.expr(e, env, selfname)
+            return "P"
+        if isinstance(n, ast.BoolOp) or (isinstance(n, ast.UnaryOp) and isinstance(n.op, (ast.Not, ast.Invert))):
+            for e in (n.values if isinstance(n, ast.BoolOp) else [n.operand]):
+                self.expr(e, env, selfname)
+            return "P"
         raise AnalysisError(f"unsupported expression in hazard analysis: {src(n)[:60]}")
 
 
